@@ -221,6 +221,7 @@ def tree_paths(tree, limit=40):
             out.append(path + [1])
             if depth < 2:
                 out.append(path + [1, 1])
+                out.append(path + [1, 2])
             out.append(path + [2])
             return
         for i, s in enumerate(subs, 1):
@@ -332,13 +333,19 @@ def gen_entity(rng, style, depth: int, used: list) -> bytes:
                 body += gen_eol(rng, style)
         nparts = rng.choice([0, 1, 1, 2, 2, 3])
         for _ in range(nparts):
-            body += b'--' + bnd + gen_eol(rng, style)
+            body += b'--' + bnd + (rng.choice([b' ', b'\t', b'-']) if rng.random() < 0.04 else b'') \
+                + gen_eol(rng, style)
             part = gen_entity(rng, style, depth - 1, used)
             body += part
             if not part.endswith(b'\n') and rng.random() < 0.9:
                 body += gen_eol(rng, style)
         close = rng.random()
         if close < 0.8:
+            if rng.random() < 0.08:       # not a close delimiter: trailing blank
+                body += b'--' + bnd + b'--' + rng.choice([b' ', b'\t', b' \t']) + \
+                    gen_eol(rng, style) + gen_text_lines(rng, style, 2)
+                if not body.endswith(b'\n'):
+                    body += gen_eol(rng, style)
             body += b'--' + bnd + b'--' + (gen_eol(rng, style) if rng.random() < 0.8 else b'')
             if rng.random() < 0.3:
                 body += gen_text_lines(rng, style, 2)  # epilogue
@@ -364,11 +371,13 @@ def gen_entity(rng, style, depth: int, used: list) -> bytes:
     return hdr + sep + body
 
 
-def gen_message(rng, max_depth=4) -> bytes:
-    style = rng.choice(['crlf', 'crlf', 'lf', 'mix'])
+def gen_message(rng, max_depth=4, style=None) -> bytes:
+    style = style or rng.choice(['crlf', 'crlf', 'lf', 'mix'])
     depth = rng.choice([0, 0, 1, 1, 2, 3, max_depth])
     m = gen_entity(rng, style, depth, [])
     r = rng.random()
+    if style == 'lf' and not m.endswith(b'\n'):
+        m += b'\n'
     if r < 0.15 and m:           # a point mutation
         k = rng.randrange(len(m))
         c = rng.choice([b'\r', b'\n', b' ', b'-', b'\x00', b'\xff', b''])
